@@ -1,4 +1,5 @@
 import JjModel.Lemmas.RevsetResolve
+import JjModel.Lemmas.RevsetOptPasses3
 /-!
   C19 — revset evaluation matches set semantics: theorems about the model
   `JjModel.Revset` (`lean/JjModel/Model/Revset.lean`: the definitions the driver runs;
@@ -141,6 +142,145 @@ theorem eval_eq_of_denote_eq (g : Graph) (hw : g.WF) (e₁ e₂ : Expr) (h₁ : 
   have s₂ := eval_sound g hw e₂ h₂
   exact desc_ext s₁.1 s₂.1 fun p => (s₁.2 p).trans ((h p).trans (s₂.2 p).symm)
 
+/-! ## `optimize()` -/
+
+/-- every commit other than the root has a parent, and there is a visible head (true in every
+jj repository); then the root commit is an ancestor of everything visible -/
+structure Rooted (g : Graph) : Prop where
+  heads_ne : g.heads ≠ []
+  has_parent : ∀ p, p < g.size → p ≠ 0 → g.par p ≠ []
+
+theorem path_to_root (g : Graph) (hw : g.WF) (hr : Rooted g) :
+    ∀ (n p : Nat), p ≤ n → p < g.size → Path g.par p 0 := by
+  intro n
+  induction n with
+  | zero => intro p hp _; have : p = 0 := by omega
+            subst this; exact Path.refl _ _
+  | succ n ih =>
+    intro p hp hlt
+    by_cases h0 : p = 0
+    · subst h0; exact Path.refl _ _
+    · have hne := hr.has_parent p hlt h0
+      cases hpar : g.par p with
+      | nil => exact absurd hpar hne
+      | cons q rest =>
+        have hq : q ∈ g.par p := by rw [hpar]; simp
+        have := hw.topo _ _ hq
+        exact Path.head hq (ih q (by omega) (by omega))
+
+theorem wf_refsOf_lt (g : Graph) : ∀ (e : Expr), e.WF g → ∀ x ∈ refsOf e, x < g.size := by
+  intro e
+  induction e with
+  | commits l => intro h x hx; exact h x hx
+  | ancestors h lo hi fp ih => intro hok; exact ih hok
+  | descendants r lo hi ih => intro hok; exact ih hok
+  | heads x ih => intro hok; exact ih hok
+  | roots x ih => intro hok; exact ih hok
+  | forkPoint x ih => intro hok; exact ih hok
+  | latest x n ih => intro hok; exact ih hok
+  | notIn x ih => intro hok; exact ih hok
+  | range r h lo hi fp ihr ihh =>
+    intro hok x hx
+    simp only [refsOf, List.mem_append] at hx
+    exact hx.elim (ihr hok.1 x) (ihh hok.2 x)
+  | dagRange r h ihr ihh =>
+    intro hok x hx
+    simp only [refsOf, List.mem_append] at hx
+    exact hx.elim (ihr hok.1 x) (ihh hok.2 x)
+  | reachable r h ihr ihh =>
+    intro hok x hx
+    simp only [refsOf, List.mem_append] at hx
+    exact hx.elim (ihr hok.1 x) (ihh hok.2 x)
+  | coalesce r h ihr ihh =>
+    intro hok x hx
+    simp only [refsOf, List.mem_append] at hx
+    exact hx.elim (ihr hok.1 x) (ihh hok.2 x)
+  | union r h ihr ihh =>
+    intro hok x hx
+    simp only [refsOf, List.mem_append] at hx
+    exact hx.elim (ihr hok.1 x) (ihh hok.2 x)
+  | inter r h ihr ihh =>
+    intro hok x hx
+    simp only [refsOf, List.mem_append] at hx
+    exact hx.elim (ihr hok.1 x) (ihh hok.2 x)
+  | diff r h ihr ihh =>
+    intro hok x hx
+    simp only [refsOf, List.mem_append] at hx
+    exact hx.elim (ihr hok.1 x) (ihh hok.2 x)
+  | headsRange r h fp f ihr ihh ihf =>
+    intro hok x hx
+    simp only [refsOf, List.mem_append] at hx
+    rcases hx with (hx | hx) | hx
+    · exact ihr hok.1 x hx
+    · exact ihh hok.2.1 x hx
+    · exact ihf hok.2.2 x hx
+  | none => intro _ x hx; simp [refsOf] at hx
+  | all => intro _ x hx; simp [refsOf] at hx
+  | visibleHeads => intro _ x hx; simp [refsOf] at hx
+  | visibleHeadsOrReferenced => intro _ x hx; simp [refsOf] at hx
+  | root => intro _ x hx; simp [refsOf] at hx
+
+/-- the rewrite context of a whole expression: `vh` = its referenced commits ++ the visible heads -/
+theorem ctx_of (g : Graph) (hw : g.WF) (hr : Rooted g) (refs : List Nat)
+    (hrefs : ∀ x ∈ refs, x < g.size) : Ctx g (refs ++ g.heads) where
+  wf := hw
+  rootIn := by
+    cases hh : g.heads with
+    | nil => exact absurd hh hr.heads_ne
+    | cons h rest =>
+      have hm : h ∈ g.heads := by rw [hh]; simp
+      refine ⟨h, by simp, ?_⟩
+      exact path_to_root g hw hr h h (Nat.le_refl _) (hw.heads_lt h hm)
+  headsIn := fun h hh => by simp [hh]
+  lt := by
+    intro x hx
+    simp only [List.mem_append] at hx
+    exact hx.elim (hrefs x) (hw.heads_lt x)
+
+/-- **`optimize` preserves the meaning**: all nine modelled rewrite passes (`unfold_difference`,
+`fold_redundant_expression`, `fold_generation`, `flatten_intersections`,
+`sort_negations_and_ancestors`, `fold_ancestors_union`, `fold_heads_range`, `fold_difference`,
+`fold_not_in_ancestors`), on *every* modelled expression (also `reachable`, `fork_point`,
+`latest`, `heads_range`), keep the denoted set — with the visibility context fixed before
+rewriting, exactly as `optimize()` collects the referenced commits first. -/
+theorem optimize_sound (g : Graph) (hw : g.WF) (hr : Rooted g) (e : Expr) (hwf : e.WF g) :
+    denote g (refsOf e ++ g.heads) (optimize e) = denoteTop g e :=
+  (optimize_sound' (ctx_of g hw hr (refsOf e) (wf_refsOf_lt g e hwf)) e
+    (fun x hx => by simp [hx])).2
+
+/-- each pass separately (for any context `vh` that contains the heads, the root's
+visibility and the expression's own commit literals) -/
+theorem pass_sound (g : Graph) (vh : List Nat) (ctx : Ctx g vh) :
+    Sound g vh (bottomUp unfoldDifferenceF) ∧ Sound g vh (bottomUp foldRedundantF) ∧
+    Sound g vh (bottomUp foldGenerationF) ∧ Sound g vh (bottomUp flattenIntersectionsF) ∧
+    Sound g vh (bottomUp sortNegationsF) ∧ Sound g vh (bottomUp foldAncestorsUnionF) ∧
+    Sound g vh (bottomUp foldHeadsRangeF) ∧ Sound g vh (bottomUp foldDifferenceF) ∧
+    Sound g vh (bottomUp foldNotInAncestorsF) :=
+  ⟨unfoldDifference_sound ctx, foldRedundant_sound ctx, foldGeneration_sound,
+   flattenIntersections_sound, sortNegations_sound, foldAncestorsUnion_sound,
+   foldHeadsRange_sound ctx, foldDifference_sound ctx, foldNotInAncestors_sound⟩
+
+/-- `eval_sound` for an arbitrary set of referenced commits (what `evaluate` uses after
+`optimize` may have deleted some literals) -/
+theorem eval_sound_refs (g : Graph) (hw : g.WF) (refs : List Nat) (hrefs : ∀ x ∈ refs, x < g.size)
+    (e : Expr) (hok : OkE g e) :
+    Desc (eval g (resolve g refs e)) ∧
+      ∀ p, p ∈ eval g (resolve g refs e) ↔ denote g (refs ++ g.heads) e p := by
+  have hR := resolve_ok g hw refs hrefs e hok
+  have hs := eval_spec g hw _ hR
+  exact ⟨hs.desc, fun p => (hs.mem p).trans (resolve_spec g _ e hok p)⟩
+
+/-- **Optimized = unoptimized**, whenever the rewritten expression stays inside the grammar of
+`eval_sound` (i.e. the optimizer did not introduce a `HeadsRange` node). -/
+theorem optimized_eq_unoptimized (g : Graph) (hw : g.WF) (hr : Rooted g) (e : Expr)
+    (hok : OkE g e) (hwf : e.WF g) (hopt : OkE g (optimize e)) : evalTopOpt g e = evalTop g e := by
+  have s₁ := eval_sound_refs g hw (refsOf e) (refsOf_lt g e hok) (optimize e) hopt
+  have s₂ := eval_sound g hw e hok
+  refine desc_ext s₁.1 s₂.1 fun p => ?_
+  show p ∈ eval g (resolve g (refsOf e) (optimize e)) ↔ _
+  rw [s₁.2 p, optimize_sound g hw hr e hwf]
+  exact (s₂.2 p).symm
+
 /-! ## non-vacuity: a concrete graph with a merge and a hidden commit -/
 
 /-- executable check of `Graph.WF` (for the examples) -/
@@ -188,5 +328,28 @@ example :
     let e := Expr.notIn (.ancestors (.commits [2]) 0 none false)
     Desc (evalTop exG e) ∧ ∀ p, p ∈ evalTop exG e ↔ denoteTop exG e p :=
   eval_sound exG exG_wf _ (by simp [OkE, exG, Graph.size])
+
+theorem exG_rooted : Rooted exG where
+  heads_ne := by decide
+  has_parent := by
+    intro p hp h0
+    have : p < 6 := hp
+    match p, this, h0 with
+    | 1, _, _ => decide
+    | 2, _, _ => decide
+    | 3, _, _ => decide
+    | 4, _, _ => decide
+    | 5, _, _ => decide
+
+/-- `(::4) ~ (::1)` is rewritten to `Range{roots: 1, heads: 4}` — both sides covered -/
+example : evalTopOpt exG (.diff (.ancestors (.commits [4]) 0 none false) (.ancestors (.commits [1]) 0 none false))
+    = evalTop exG (.diff (.ancestors (.commits [4]) 0 none false) (.ancestors (.commits [1]) 0 none false)) :=
+  optimized_eq_unoptimized exG exG_wf exG_rooted _ (by simp [OkE, exG, Graph.size])
+    (by simp [Expr.WF, exG, Graph.size])
+    (by simp [optimize, bottomUp, unfoldDifferenceF, foldRedundantF, foldGenerationF,
+          flattenIntersectionsF, flattenInter, sortNegationsF, sortInterHelper, ancestorsOrder,
+          foldAncestorsUnionF, foldHeadsRangeF, toHeadsRange, toFilteredRange, ancestorsToHeadsPr,
+          ancestorsToHeads, foldDifferenceF, toDifference, toDifferenceRange, foldNotInAncestorsF,
+          OkE, exG, Graph.size])
 
 end JjModel.C19
